@@ -224,9 +224,13 @@ func c20Run(r *runCtx, id string, f []string) {
 				time.Sleep(2 * time.Millisecond)
 				rt.VerifFanoutBarrier()
 			}
-			if !stuck && loaded && !rt.VerifSwapPending() {
+			if !stuck && loaded && !(rt.VerifSwapPending() && e.anyHeldEntered()) {
 				// the line has been taken by the loader; before anything else happens it must also have
-				// reached the program's VM (otherwise a load issued next could legitimately overtake it)
+				// reached the program's VM (otherwise a load issued next could legitimately overtake it).
+				// Not waited for only when a reload is pending behind a line the schedule holds, which
+				// cannot end before the release; a reload pending behind nothing ends by itself, and
+				// the line follows it (under load a later `load` otherwise overtook the line, and the
+				// version the released reload had installed never saw a line at all)
 				deadline := time.Now().Add(10 * time.Second)
 				for time.Now().Before(deadline) {
 					e.mu.Lock()
@@ -237,7 +241,7 @@ func c20Run(r *runCtx, id string, f []string) {
 						}
 					}
 					e.mu.Unlock()
-					if seenIt || rt.VerifSwapPending() {
+					if seenIt || (rt.VerifSwapPending() && e.anyHeldEntered()) {
 						break
 					}
 					time.Sleep(100 * time.Microsecond)
